@@ -118,6 +118,9 @@ func (x Expr) set(data, value any, fun string, one bool) error {
 			case map[string]any:
 				if int(fi) == len(x)-1 { // last one
 					if value == delFlag {
+						if _, has = tv[string(tf)]; !has {
+							break
+						}
 						delete(tv, string(tf))
 					} else {
 						tv[string(tf)] = value
@@ -164,6 +167,9 @@ func (x Expr) set(data, value any, fun string, one bool) error {
 			case Keyed:
 				if int(fi) == len(x)-1 { // last one
 					if value == delFlag {
+						if _, has = tv.ValueForKey(string(tf)); !has {
+							break
+						}
 						tv.RemoveValueForKey(string(tf))
 					} else {
 						tv.SetValueForKey(string(tf), value)
@@ -210,6 +216,9 @@ func (x Expr) set(data, value any, fun string, one bool) error {
 			case gen.Object:
 				if int(fi) == len(x)-1 { // last one
 					if value == delFlag {
+						if _, has = tv[string(tf)]; !has {
+							break
+						}
 						delete(tv, string(tf))
 					} else {
 						tv[string(tf)] = nodeValue
@@ -760,6 +769,9 @@ func (x Expr) set(data, value any, fun string, one bool) error {
 					case map[string]any:
 						if int(fi) == len(x)-1 { // last one
 							if value == delFlag {
+								if _, has = tv[tu]; !has {
+									break
+								}
 								delete(tv, tu)
 							} else {
 								tv[tu] = value
@@ -787,6 +799,9 @@ func (x Expr) set(data, value any, fun string, one bool) error {
 					case Keyed:
 						if int(fi) == len(x)-1 { // last one
 							if value == delFlag {
+								if _, has = tv.ValueForKey(tu); !has {
+									break
+								}
 								tv.RemoveValueForKey(tu)
 							} else {
 								tv.SetValueForKey(tu, value)
@@ -814,6 +829,9 @@ func (x Expr) set(data, value any, fun string, one bool) error {
 					case gen.Object:
 						if int(fi) == len(x)-1 { // last one
 							if value == delFlag {
+								if _, has = tv[tu]; !has {
+									break
+								}
 								delete(tv, tu)
 							} else {
 								tv[tu] = nodeValue
